@@ -358,9 +358,13 @@ def _history_table(prog: Program, ctx: Ctx) -> None:  # noqa: PLR0912,PLR0915
                 it.call(meth(coll, "set_member"), coll, ".".join(path), value)
             elif via == "tuple":
                 it.call(meth(coll, "set_member"), coll, tuple(path), value)
-            else:  # item assignment
+            elif via == "item":  # item assignment on the container
                 cont = container(coll, path[:-1])
                 it.call(meth(cont, "__setitem__"), cont, path[-1], value)
+            elif via == "item on the collection, dotted":
+                it.call(meth(coll, "__setitem__"), coll, ".".join(path), value)
+            else:  # item assignment on the collection with a tuple key
+                it.call(meth(coll, "__setitem__"), coll, tuple(path), value)
             d = model
             for p in path[:-1]:
                 d = d[p]
@@ -399,6 +403,7 @@ def _history_table(prog: Program, ctx: Ctx) -> None:  # noqa: PLR0912,PLR0915
         op_set("name", ("m", "x"), "object"), op_set("dotted", ("m", "x"), "object"), op_set("tuple", ("m", "K", "f"), "object"), op_set("item", ("m", "x"), "object"),
         op_set("name", ("m", "x"), "alias"), op_set("name", ("m", "x"), "dangling alias"), op_set("name", ("m", "x"), "self alias"), op_set("dotted", ("m", "K"), "object"),
         op_set("name", ("m", "z"), "object"), op_set("name", ("n", "y"), "alias"),
+        op_set("item on the collection, dotted", ("m", "x"), "object"), op_set("item on the collection, tuple", ("m", "K", "f"), "object"),
         op_del("name", ("m", "x")), op_del("dotted", ("m", "K", "f")), op_del("tuple", ("n", "y")), op_del("dotted", ("m", "x")),
         op_resolve(("n", "y")), op_resolve(("n", "w")),
     ]
@@ -467,7 +472,7 @@ def _history_table(prog: Program, ctx: Ctx) -> None:  # noqa: PLR0912,PLR0915
                 break
             problems: list[str] = []
             walk(coll, model, (), problems, coll)
-            if tgt_path and "via item" not in label:
+            if tgt_path and "via item" not in label and not problems:
                 new_val = container(coll, tuple(tgt_path.split(".")))
                 for apath, a in before_regs.items():
                     if a.attrs.get("_target") is not new_val and a is not new_val and not _self_cycle(apath, new_val, it):
